@@ -124,7 +124,8 @@ def verdict(world, sut, op, ri, n1, step):
     for d in defects:
         if not VM.named(d, errors):
             world.violate('C04.verdict', 'a %s child is not reported by validate()' % {
-                'missing': 'missing required', 'exceeded': 'surplus (maximum exceeded)', 'not_allowed': 'not allowed'}[d[0]],
+                'missing': 'missing required', 'exceeded': 'surplus (maximum exceeded)', 'not_allowed': 'not allowed',
+                'datatype': 'wrongly shaped (base datatype with several parts)'}[d[0]],
                 '%s %s in %s; errors=%r' % (d[0], d[1], d[2], errors[:6]), step)
             break
     if defects:
